@@ -12,14 +12,18 @@ final release, so `get_dist` returns the highest offered version that every clau
 -/
 namespace RV.G
 
+abbrev Univ := List (Name × List (Ver × Meta))  -- normalised project key ↦ offered versions
+
 structure Env where
-  univ     : List (Name × List (Ver × Meta))     -- normalised project key ↦ offered versions
+  univ     : Univ                                -- the index / find-links side
   possible : List (List Clause × Bool)           -- is_possible, keyed by the sorted merged clause ids
   neClause : List ((Name × Ver) × Clause)        -- (project key, version) ↦ clause id of `!=version`
   order    : Orders
   maxDepth : Nat := 80
   pins     : List (Name × Req) := []             -- options.pinned_requirements (last one wins)
   usePins  : Bool := false
+  front    : Univ := []                          -- repositories stacked before `univ` (prior solutions, with the
+                                                 -- projects released for upgrade left out): first success wins
 
 inductive Res
   | ok
@@ -41,11 +45,20 @@ def pickBest (best : Option (Ver × Meta)) (p : Ver × Meta) : Option (Ver × Me
   | none => some p
   | some b => if p.1 > b.1 then some p else some b
 
-/-- the trivial `get_dist`: highest offered version accepted by every clause -/
-def getDist (env : Env) (s : St) (q : Req) : Option Meta :=
-  match env.univ.find? (·.1 = keyOfReq q) with
+/-- the trivial `get_dist` of one repository: highest offered version accepted by every clause -/
+def getDistIn (u : Univ) (s : St) (q : Req) : Option Meta :=
+  match u.find? (·.1 = keyOfReq q) with
   | none => none
   | some (_, vs) => ((vs.filter (fun p => acceptsReq s q p.1)).foldl pickBest none).map (·.2)
+
+/-- `MultiRepository.get_dist` over [front, univ]: `NoCandidateException` of the front moves on to the back -/
+def getDist (env : Env) (s : St) (q : Req) : Option Meta :=
+  match getDistIn env.front s q with
+  | some m => some m
+  | none => getDistIn env.univ s q
+
+/-- `SolutionRepository(..., excluded_packages=upgrade)`: the recorded pins minus the released projects -/
+def solutionFront (pins : Univ) (released : List Name) : Univ := pins.filter fun p => !released.contains p.1
 
 def possibleOf (env : Env) (cs : List Clause) : Bool :=
   ((env.possible.find? (·.1 = sortNats cs)).map (·.2)).getD true
